@@ -63,7 +63,7 @@ CATALOGUE = {
         "K.purpose-verify", "K.purpose-absent"],
     "android-safetynet": [
         "S.ver-missing", "S.response-missing", "S.jws-two-parts", "S.jws-four-parts", "S.nonce-other-data",
-        "S.basicintegrity-false", "S.basicintegrity-missing", "S.ts-past", "S.ts-future", "S.ts-in-seconds", "S.ts-in-microseconds", "S.ts-zero", "S.cn-other", "S.cn-missing",
+        "S.basicintegrity-false", "S.basicintegrity-missing", "S.ts-past", "S.ts-future", "S.ts-in-seconds", "S.ts-in-microseconds", "S.ts-zero", "S.ts-nan", "S.ts-minus-infinity", "S.cn-other", "S.cn-missing",
         "S.alg-es256", "S.sig-other-key", "S.payload-altered"],
     "chain": list(ca.CHAIN_FAULTS),
 }
@@ -740,6 +740,10 @@ def _snet_timestamp(b: _Build, shift: int) -> int:
         return int(t * 1_000_000)
     if b.has("S.ts-zero"):
         return 0
+    if b.has("S.ts-nan"):
+        return float("nan")         # json.dumps writes NaN, json.loads reads it back: not an instant at all
+    if b.has("S.ts-minus-infinity"):
+        return float("-inf")
     return int(t * 1000)
 
 
